@@ -32,7 +32,7 @@ for _v in ("OMP_NUM_THREADS", "OPENBLAS_NUM_THREADS", "MKL_NUM_THREADS"):
 os.environ.setdefault("TQDM_DISABLE", "1")          # the ensemble wrappers cannot switch their progress bars off
 
 from ..core import Ctx, Report, pmap
-from ..fitkit import (CAP, LAWFUL, SHIPPED, Probe, RecordingLoss, RecordingResidual, build, build_ensemble, build_joint, content_of,
+from ..fitkit import (CAP, LAWFUL, SHIPPED, Probe, RecordingLoss, RecordingResidual, build, build_ensemble, build_joint, content_of, settings_view,
                       evaluate_at, event, fr, fvec, norm_ensemble, norm_joint, norm_scenario, seq, term_value)
 from ..tlc import MachineryError
 
@@ -401,7 +401,16 @@ def residuals(ctx: Ctx, rep: Report, scns: list[dict]) -> None:
 # ======================================================================================================
 # 4b. joint fits: per-experiment overrides of the shared defaults (FitJoint.tla)
 # ======================================================================================================
+def _other_defaults(d: dict) -> dict:
+    """Shared defaults of an EARLIER call on the same settings list: another loss, another y0."""
+    return {"loss": "mae" if d["loss"] == "rmse" else "rmse",
+            "y0": {"n": 5, "d": 1} if int(d["y0"]["d"]) == 0 else {"n": 0, "d": 0}}
+
+
 def _joint_case(js: dict) -> list[dict]:
+    """plain: the kind's joint_* routine, as the SECOND call on a settings list that an earlier call with other shared
+    defaults has already seen (histories); scaled: fit.joint_mixed on MixedSettings.  Either way the caller's settings
+    objects and models must be what they were."""
     import numpy as np
     from mxlpy import fit
 
@@ -409,15 +418,25 @@ def _joint_case(js: dict) -> list[dict]:
     for scl in ("plain", "scaled"):
         terms = [e[scl] for e in js["exp"]]
         vals = [term_value(t) for t in terms]
-        base = {"scaled": scl == "scaled"}
+        mixed = scl == "scaled"
+        base = {"scaled": scl == "scaled", "routine": "joint_mixed" if mixed else "joint_*", "history": not mixed}
         if any(v is None for v in vals):
             out.append({**base, "status": "undefined"})
             continue
         exp = math.fsum(vals)
-        routine, to_fit, kwargs, p0 = build_joint(js)
+        routine, to_fit, kwargs, p0 = build_joint(js, mixed=mixed)
+        base["routine"] = routine
         before = [content_of(s.model) for s in to_fit]
+        wrote = settings_view(to_fit)
         with np.errstate(all="ignore"):
             try:
+                if not mixed:       # an earlier call with other defaults on the SAME list
+                    _, _, kw1, _ = build_joint(js, mixed=False, defaults=_other_defaults(js["dflt"]))
+                    getattr(fit, routine)(to_fit, p0=dict(p0), minimizer=Probe([p0]), max_workers=2,
+                                          standard_scale=False, **kw1)
+                    if settings_view(to_fit) != wrote:
+                        out.append({**base, "status": "bad", "what": "the caller's settings objects were changed by a call",
+                                    "expected": wrote, "observed": settings_view(to_fit)})
                 res = getattr(fit, routine)(to_fit, p0=dict(p0), minimizer=Probe([p0]), max_workers=2,
                                             standard_scale=scl == "scaled", **kwargs)
                 val = res.value
@@ -433,6 +452,9 @@ def _joint_case(js: dict) -> list[dict]:
             out.append({**base, "status": "ok"})
         else:
             out.append({**base, "status": "bad", "expected": exp, "per_experiment": vals, "observed": obs, "tolerance": tol})
+        if settings_view(to_fit) != wrote:
+            out.append({**base, "status": "bad", "what": "the caller's settings objects were changed by the call",
+                        "expected": wrote, "observed": settings_view(to_fit)})
         after = [content_of(s.model, invalidate=True) for s in to_fit]
         if before != after:
             out.append({**base, "status": "bad", "what": "an experiment's model changed (as_deepcopy default)",
@@ -442,7 +464,7 @@ def _joint_case(js: dict) -> list[dict]:
 
 def slim_joint(js: dict) -> dict:
     return {"kind": "joint", **{k: js[k] for k in ("exps", "dflt", "jc", "jt", "A", "prot", "times", "x2", "eff", "data",
-                                                     "pred", "exp", "leakshape")}, "shape": js["kind"]}
+                                                     "pred", "exp", "leakshape", "j4t", "j4c", "anyrich")}, "shape": js["kind"]}
 
 
 def joint(ctx: Ctx, rep: Report) -> None:
@@ -451,6 +473,12 @@ def joint(ctx: Ctx, rep: Report) -> None:
         raise MachineryError(f"FitJoint_leaky.cfg: the loop-carried default should violate OrderFree, TLC reported {res.violated}")
     rep.add_tlc(res, "expected counterexample: an override that stays in force for the following experiments makes the "
                      "settings depend on the order of the experiments")
+    res = _tlc(ctx, "FitJoint.tla", "FitJoint_writeback.cfg", expect_violation=True, workers=4)
+    if res.violated != "HistoryFree":
+        raise MachineryError(f"FitJoint_writeback.cfg: writing the defaults into the caller's settings should violate HistoryFree, "
+                             f"TLC reported {res.violated}")
+    rep.add_tlc(res, "expected counterexample: a call that writes the shared defaults into the caller's settings objects makes a "
+                     "later call on the same list depend on the earlier one (and changes the caller's input)")
     res = _tlc(ctx, "FitJoint.tla", "FitJoint_three.cfg")
     rep.add_tlc(res, "joint fits, three experiments, all permutations: the settings of an experiment are its own override or "
                      "the shared default, wherever it stands (OrderFree); LeakMatters")
@@ -458,13 +486,13 @@ def joint(ctx: Ctx, rep: Report) -> None:
     rep.add_tlc(res, "gen: joint scenarios (two experiments, every combination of overrides / defaults / order) with the exact "
                      "residual term of every experiment")
     scns = [norm_joint(p) for p in res.payloads]
-    if len(scns) < 1000:
+    if len(scns) < 2000:
         raise MachineryError(f"only {len(scns)} joint scenarios emitted")
     rnd = random.Random(ctx.seed + 3)
     by: dict = {}
     for s in scns:
-        by.setdefault((s["kind"], bool(s["leakshape"])), []).append(s)
-    per = 5 if ctx.quick else 60
+        by.setdefault((s["kind"], bool(s["leakshape"]), bool(s["anyrich"])), []).append(s)
+    per = 2 if ctx.quick else 30
     pick = []
     for k in sorted(by):
         pick += by[k] if len(by[k]) <= per else rnd.sample(by[k], per)
@@ -647,6 +675,49 @@ def run_fit(case: dict) -> dict:
     return {"id": case["id"], "copy": bool(case["copy"]), "generated": bool(scn["generated"]), "p0in": bool(p0in), "ev": ev}
 
 
+def run_fit_outside_bounds(case: dict) -> dict:
+    """A fit whose starting point is the TRUTH but lies outside LocalScipyMinimizer's implicit default bounds
+    (1e-6, 1e6): a pool with a NEGATIVE inflow a1 (the statement: never a loss worse than the starting point's).  The data
+    come from the real simulator at the truth; the trace clauses need no closed form."""
+    import numpy as np
+    from mxlpy import Model, Simulator, fit
+    from mxlpy.fit import losses, routines
+
+    def model():
+        m = Model()
+        m.add_variable("x1", 1.0)
+        m.add_parameters({"a1": case["a1"], "k1": 1.0})
+        m.add_reaction("in1", const_fn, args=["a1"], stoichiometry={"x1": 1.0})
+        m.add_reaction("out1", mass_action_fn, args=["k1", "x1"], stoichiometry={"x1": -1.0})
+        return m
+
+    from ..fitkit import const as const_fn, mass_action as mass_action_fn
+    m = model()
+    times = [1.0, 2.0, 3.0]
+    data = Simulator(model()).simulate_time_course(times).get_result().value.get_combined().loc[times, ["x1"]]
+    p0 = {"a1": case["a1"]}
+    names = list(p0)
+    kw = {"data": data}
+    ev = [{"k": "entry", "content": content_of(m)}]
+    with np.errstate(all="ignore"):
+        l0 = evaluate_at(copy.deepcopy(m), "time_course", kw, p0, "rmse", False)
+        ev.append(event("start", names, p0, l0))
+        log: list = []
+        rec = RecordingResidual(routines.time_course_residual, names, log)
+        res = fit.time_course(m, p0=dict(p0), minimizer=fit.LocalScipyMinimizer(), residual_fn=rec,
+                              loss_fn=RecordingLoss(losses.rmse, log), standard_scale=False, **kw)
+        ev += rec.events
+        val = res.value
+        if isinstance(val, Exception):
+            ev.append({"k": "fail"})
+        else:
+            best = {n: float(val.best_pars[n]) for n in names}
+            ev.append(event("report", names, best, float(val.loss)))
+            ev.append(event("reeval", names, best, evaluate_at(model(), "time_course", kw, best, "rmse", False)))
+        ev.append({"k": "exit", "content": content_of(m, invalidate=True)})
+    return {"id": case["id"], "copy": True, "generated": True, "p0in": False, "ev": ev}
+
+
 def validate_traces(ctx: Ctx, rep: Report, traces: list[dict], tag: str, what: str) -> dict:
     verdicts: dict = {}
     for lo in range(0, len(traces), 400):
@@ -665,6 +736,12 @@ def validate_traces(ctx: Ctx, rep: Report, traces: list[dict], tag: str, what: s
 
 
 def classify_trace(case: dict, trace: dict, verdict: dict) -> str | None:
+    """Finding key from the SHAPE of the rejected fit."""
+    if case.get("outside_bounds"):
+        # the start lies outside the minimiser's implicit default bounds and the rejected event is the report
+        ev = trace["ev"][verdict["l"] - 1] if verdict["l"] - 1 < len(trace["ev"]) else {}
+        if ev.get("k") == "report":
+            return "start-outside-implicit-bounds"
     return None
 
 
@@ -702,6 +779,11 @@ def corruptions(trace: dict) -> list[tuple[str, dict]]:
 def traces(ctx: Ctx, rep: Report, scns: list[dict]) -> None:
     cases = fit_cases(ctx, scns)
     trs = pmap(run_fit, cases, procs=WORKERS, chunk=2)
+    for a1 in (-0.2, -1.0):          # the truth as the starting point, outside the implicit default bounds (1e-6, 1e6)
+        c = {"id": len(cases), "outside_bounds": True, "a1": a1, "loss": "rmse", "scaled": False, "method": "L-BFGS-B",
+             "copy": True, "scn": {"sc": {"custom": "pool with negative inflow, start = truth", "a1": a1}}}
+        cases.append(c)
+        trs.append(run_fit_outside_bounds(c))
     verdicts = validate_traces(ctx, rep, trs, "fits", "trace validation: recorded fits (LocalScipyMinimizer) against FitCore clauses")
     failed = sum(1 for t in trs if any(e["k"] == "fail" for e in t["ev"]))
     evals = sum(1 for t in trs for e in t["ev"] if e["k"] == "eval")
@@ -824,7 +906,7 @@ def replay(ctx: Ctx, doc: dict) -> int:
         bad = [r for r in rs if r["status"] == "bad"]
     elif kind == "trace":
         rep = Report(ctx)
-        tr = run_fit(scn)
+        tr = run_fit_outside_bounds(scn) if scn.get("outside_bounds") else run_fit(scn)
         v = validate_traces(ctx, rep, [tr], "replay", "replay")[tr["id"]]
         print(json.dumps({"verdict": v, "events": len(tr["ev"])}))
         bad = not v["accept"]
